@@ -44,7 +44,7 @@ man = {
         "add_only": True,
     },
     "engines": [{"name": "simkit", "path": "/verif/simkit", "serves_properties": served,
-                 "kind_free_text": "home-grown deterministic simulator: scenario-as-data generator seeded from VERIF_SEED, executable reference models, fault/rejection injection, SimPool (worker-pool scheduler), SimDisk (crash-consistent file system), fork-per-run isolation, delta-debugging minimiser, JSON replay files"}],
+                 "kind_free_text": "home-grown deterministic simulator: scenario-as-data generator seeded from VERIF_SEED, executable reference models, fault/rejection injection, SimPool (worker-pool scheduler), SimDisk (crash-consistent file system), StepGate (operations issued inside a parked timestep), ThreadHop (operations issued from several caller threads, strict baton passing), garbage collection scheduled by the scenario, ambient interpreter state (logging, warnings, -O, start method) as scenario dimensions, fork-per-run isolation, delta-debugging minimiser, JSON replay files"}],
     "checks": checks,
     "notes": "See DESIGN.md. Fixes to /repo are separate 'fix:' commits recorded in known_findings.json; no hook commits exist (source_commits empty).",
     "not_applicable": na,
